@@ -29,6 +29,10 @@ type regOp struct {
 	ViaTpl bool        `json:"via_tpl,omitempty"` // through a loaded template's String
 	BadRet bool        `json:"bad_ret,omitempty"` // (arr) registered function returns a value of an unsupported kind
 	Place  string      `json:"place,omitempty"`   // via_tpl: where the call stands: page | component | slot | insert
+	// FailArg k >= 1: the k-th argument is an expression that fails (an undefined name or a
+	// call of an unregistered function): the render fails and no function is invoked
+	FailArg  int    `json:"fail_arg,omitempty"`
+	FailExpr string `json:"fail_expr,omitempty"`
 }
 
 func (o regOp) String() string {
@@ -41,6 +45,9 @@ func (o regOp) String() string {
 	a := make([]string, len(o.Args))
 	for i, x := range o.Args {
 		a[i] = describeModel(x.value())
+	}
+	if o.FailArg > 0 && o.FailArg <= len(a) {
+		a[o.FailArg-1] = "FAILING " + o.FailExpr
 	}
 	return fmt.Sprintf("call %s.%s(%s) var=%v tpl=%v", describeModel(o.Recv.value()), o.Name, strings.Join(a, ", "), o.ViaVar, o.ViaTpl)
 }
@@ -286,6 +293,34 @@ func (m *regModel) call(op regOp) string {
 		return out, ""
 	}
 	m.last = nil
+	if op.FailArg >= 1 && op.FailArg <= len(args) {
+		// the same call with the k-th argument replaced by a failing expression
+		var parts []string
+		for i, a := range args {
+			switch {
+			case i == op.FailArg-1:
+				parts = append(parts, op.FailExpr)
+			case op.ViaVar:
+				parts = append(parts, fmt.Sprintf("a%d", i))
+			default:
+				parts = append(parts, tw.ExprString(litFromModel(a), nil))
+			}
+		}
+		recvText := "r"
+		if !op.ViaVar {
+			recvText = tw.ExprString(tw.Call(litFromModel(recv), "zzPlaceholder"), nil)
+			recvText = strings.TrimSuffix(recvText, ".zzPlaceholder()")
+		}
+		src := "[{{ " + recvText + "." + op.Name + "(" + strings.Join(parts, ", ") + ") }}]"
+		out, errText := render(src, data)
+		if errText == "" {
+			return fmt.Sprintf("argument %d of %s fails (%s) but the render succeeded with %q", op.FailArg, src, op.FailExpr, out)
+		}
+		if m.last != nil {
+			return fmt.Sprintf("argument %d of %s fails (%s) but the custom function %d was invoked", op.FailArg, src, op.FailExpr, m.last.id)
+		}
+		return ""
+	}
 	id, registered := m.reg[typ][op.Name]
 	isBuiltin := builtinsOf[typ][op.Name]
 	// observation template: structure of the result
@@ -482,6 +517,10 @@ func genRegOp(rt *rapid.T) regOp {
 	if markup {
 		op.ViaVar = true
 	}
+	if n > 0 && rapid.IntRange(0, 7).Draw(rt, "failingArg") == 0 {
+		op.FailArg = rapid.IntRange(1, n).Draw(rt, "failArgAt")
+		op.FailExpr = rapid.SampledFrom([]string{"zzUndefinedName", "1.zzNope()", "[1][5].x", "1 / 0", "\"s\".zzNope(2)"}).Draw(rt, "failExpr")
+	}
 	return op
 }
 
@@ -522,7 +561,7 @@ func c20NonTrivial(ops []regOp) bool {
 
 func TestC20_StateMachine(t *testing.T) {
 	c := harness.New(t, "C20", "state-machine",
-		"random histories (rapid state machine, length up to ~40) after a registry reset: Register{Str,Arr,Int,Float,Bool}(name) with name in {f, g, a built-in name of that type, a built-in name of another type, (arrays) a function returning an unsupported kind}; calls on receivers of the five types as literals or variables with 0..3 arguments of any kind incl. nested arrays/objects and nil, directly and through a loaded template; LoadTemplates at any point. Model: registry type -> name -> id of the first registration; Register errors iff the pair is present and never replaces; a call yields the built-in (custom closure not invoked) if one exists, else the registered closure must have received the receiver and arguments as the plain Go values (int, int64, float64, string, bool, nil, []any, map[string]any recursively; empty array = length 0) and its result must render like the same Go value passed as data (also by index/member access into returned []any with nested maps), else an error naming the function and the receiver type. Non-trivial: one name registered on >= 2 types, a rejected duplicate, calls before and after LoadTemplates. Distinct by hash of the history.")
+		"random histories (rapid state machine, length up to ~40) after a registry reset: Register{Str,Arr,Int,Float,Bool}(name) with name in {f, g, a built-in name of that type, a built-in name of another type, (arrays) a function returning an unsupported kind}; calls on receivers of the five types as literals or variables with 0..3 arguments of any kind incl. nested arrays/objects and nil (one call in eight with an argument, at any position, whose evaluation fails: the render must fail without any function being invoked), directly and through a loaded template; LoadTemplates at any point. Model: registry type -> name -> id of the first registration; Register errors iff the pair is present and never replaces; a call yields the built-in (custom closure not invoked) if one exists, else the registered closure must have received the receiver and arguments as the plain Go values (int, int64, float64, string, bool, nil, []any, map[string]any recursively; empty array = length 0) and its result must render like the same Go value passed as data (also by index/member access into returned []any with nested maps), else an error naming the function and the receiver type. Non-trivial: one name registered on >= 2 types, a rejected duplicate, calls before and after LoadTemplates. Distinct by hash of the history.")
 	defer c.Finish()
 	runRapid(t, c, 1500, 24000, func(rt *rapid.T) {
 		m := newRegModel()
